@@ -5,6 +5,7 @@ from fractions import Fraction
 import numpy as np
 
 import lib
+import translate_est
 from lib import qlit, qlist, qmat, zlist, coq_list, coq_bool
 
 IMPORTS = ("From Coq Require Import List ZArith QArith Bool.\nImport ListNotations.\n"
@@ -31,6 +32,7 @@ def run(chk):
     from causationentropy.core.information.entropy import poisson_entropy
     rng = np.random.default_rng(chk.seed)
     chk.theorems()
+    lib.translator_lemma(chk, "estimator_source", translate_est.estimator_facts, translate_est.coq_estimator_facts, "")
     chk.trusted += ["Coq 8.16.1 kernel + vm_compute",
                     "the invariance theorems are about the estimator MODELS (Model/KnnCounts.v, Model/Kde.v, Model/PoissonMI.v, and the "
                     "Gaussian / geometric models of C08 / C12); the models are tied to the code by the correspondences of C08, C11, C12, C13 "
